@@ -127,8 +127,10 @@ def constructions(prog, adt_name):
 
 
 def who_may_write(ctx, rid, owner_suffix, field, allowed, floor=0, allow_derive=True,
-                  borrows_allowed=None):
+                  borrows_allowed=None, skip=None):
     ws = field_writes(ctx.prog, owner_suffix, field)
+    if skip is not None:
+        ws = [w for w in ws if not skip(owner_name(ctx.prog, w[0]))]
     n = 0
     for b, bi, idx, obj in ws:
         on = owner_name(ctx.prog, b)
